@@ -48,6 +48,44 @@ def variants(rx, rng, k):
     return list(dict.fromkeys(out))
 
 
+def ambiguous_bases(rng, n):
+    """reactions whose imbalance has several equally ranked completions (found with the real matcher - this
+    only selects the workload): balanced corpus reaction + a sum of small rule compounds on one side"""
+    import copy
+    from synrbl.SynRuleImputer.synthetic_rule_matcher import SyntheticRuleMatcher
+    db = G.rule_compounds()
+    small = [e for e in db if oracle.in_domain_smiles(e["smiles"]) and "C" not in e["Composition"]
+             and sum(v for k, v in e["Composition"].items() if k != "Q") <= 5]
+    base = G.balanced_corpus()
+    out, tries = [], 0
+    while len(out) < n and tries < 40 * n:
+        tries += 1
+        picks = rng.sample(small, rng.randint(2, 3))
+        mult = [rng.randint(1, 2) for _ in picks]
+        vec = {}
+        for e, m in zip(picks, mult):
+            for k, v in e["Composition"].items():
+                vec[k] = vec.get(k, 0) + v * m
+        vec = {k: v for k, v in vec.items() if v or k == "Q"}
+        try:
+            with common.alarm(5):
+                sols = SyntheticRuleMatcher(copy.deepcopy(db), dict(vec), select="all",
+                                            ranking="ion_priority").match()
+        except common.Watchdog:
+            continue
+        if len(sols) < 2:
+            continue
+        tag, rx = rng.choice(base)
+        sp = list(oracle.split_rsmi(rx))
+        side = rng.randrange(2)
+        extra = [e["smiles"] for e, m in zip(picks, mult) for _ in range(m)]
+        parts = sp[side].split(".") + extra
+        rng.shuffle(parts)
+        sp[side] = ".".join(parts)
+        out.append(("ambig|%s|%d" % (tag, len(sols)), ">>".join(sp)))
+    return out
+
+
 def plan(tier, seed):
     q = tier == "quick"
     rng = common.rng(seed, "C14")
@@ -60,7 +98,10 @@ def plan(tier, seed):
     pairs += G.with_spectator_copy(rng, rng.sample(pairs, 150 if q else 1500))
     pairs += [(t, rx) for t, rx in G.balanced_corpus()[: (60 if q else 1500)]]
     rng.shuffle(pairs)
-    return [{"bases": c, "k": 6 if q else 10} for c in common.stripe(pairs, 16 if q else 48)]
+    shards = [{"bases": c, "k": 6 if q else 10} for c in common.stripe(pairs, 16 if q else 48)]
+    for sh in shards:
+        sh["ambiguous"] = 8 if q else 30
+    return shards
 
 
 def additions(out, pos, input_reaction):
@@ -90,7 +131,9 @@ def work(shard, res, tier, seed):
         v = shard["replay"]
         shard = {"bases": [("replay", v["case"]["base"])], "k": 12, "forced": [v["case"].get("variant")]}
     # 1) find the bases whose outcome is composition-determined
-    bases = [(t, rx) for t, rx in shard["bases"] if oracle.in_domain_rsmi(rx)]
+    extra = ambiguous_bases(rng, shard.get("ambiguous", 0)) if shard.get("ambiguous") else []
+    res.count("ambiguous_completion_bases", len(extra))
+    bases = [(t, rx) for t, rx in list(shard["bases"]) + extra if oracle.in_domain_rsmi(rx)]
     cfg = {"batch_size": None, "threshold": 0, "n_jobs": 1}
     groups = []
     for i in range(0, len(bases), 25):
@@ -146,5 +189,6 @@ def work(shard, res, tier, seed):
 
 
 def conclude_args(res, tier, seed):
-    return {"need": {"variants_evaluated": 500, "bases:rule-based": 50, "bases:input-balanced": 30},
+    return {"need": {"variants_evaluated": 500, "bases:rule-based": 50, "bases:input-balanced": 30,
+                     "ambiguous_completion_bases": 40},
             "min_cases": 300}
